@@ -28,7 +28,8 @@ CLAIMS = {
          "first inactive origin, request only under the origin's success mark, Origin scope naming the head, removal and mark clearing afterwards), the "
          "success/failure routing decision trees of updatePlan and C_/O_::deepUpdatePlans, that head and sub-state statuses are or-ed into the right "
          "accumulators everywhere, that the status a state reports is the status of its own callbacks (the shared region-scope status is cleared before they "
-         "run), mark clearing on exit / end of step, default propagation, TaskStatus ordering, and payload~void sibling agreement. "
+         "run), mark clearing on exit / end of step, default propagation, TaskStatus ordering, payload~void sibling agreement, and that every request function "
+         "classifies a request as leaving the open region exactly when its destination lies outside the region's id interval (linear-inequality normal form). "
          "Decides that no library function passes, returns, holds or copy-constructs a state sub-object by value (callbacks run on the stored objects). Decides that the round loop is entered at most once per step on every path of its callers and that the change snapshot precedes the requests it is compared with; the bit-view read the orthogonal guard walk filters by is the single-bit normal form. Decides that an orthogonal region forwards the guard walk to every sub-region its commit covers, that the walk ends in 'no objection' at a leaf, that every round's guards run on a freshly constructed GuardControl, and that a dropped round is rolled back like a vetoed one. Decides that a region hands its parent the head's status (not the sub-states'), that scope objects save / restore the control's own values and are opened before head callbacks run on a plan-capable control, that only append sets and only PlanDataT::clear drops the plan-owner bit, and that no copy of plan data is used after a call that may change it. Does not decide the step-level accumulation of statuses across nested regions as values.",
          "field-flow + decision-tree path rules + sibling skeleton agreement over clang AST facts (static analysis)"),
  "C07": ("Decides the capacity clause (no effect and `false` at capacity), who may write the link / bound / task tables, the exact write sets of linkTask "
@@ -116,7 +117,7 @@ CLAIMS = {
  "C13": ("Decides that both RegistryT specialisations answer the six queries with the same normalised comparison, that the comparisons are the ones the "
          "statement prescribes over the fields the commit / resume code writes (same index convention), the INVALID sentinel exclusion of the pending "
          "queries, that all control facades forward unchanged, that the resume path hands the remembered prong down unchanged, and that a region stores its "
-         "active prong before its first enter callback runs. Decides that every state-keyed query climbs to the deciding composite fork by a loop over forkParent (any number of orthogonal levels). Decides that the state-typed overloads name the state by stateId<>(), and that an INVALID exclusion in the pending queries is only admissible together with a walk over further ancestors. Does not decide "
+         "active prong before its first enter callback runs. Decides that every state-keyed query climbs to the deciding composite fork by a loop over forkParent (any number of orthogonal levels). Decides that the state-typed overloads name the state by stateId<>(), and that an INVALID exclusion in the pending queries is only admissible together with a walk over further ancestors. Decides that every API member named resume* / schedule* queues the request kind its name denotes. Does not decide "
          "exactness of the pending queries for nested states whose ancestor region is the one switching.",
          "normal-form (atom set) sibling comparison + field tables over clang AST facts (static analysis)"),
  "C05": ("Decides the structural clauses of C05 for every instantiation of the reaction/update patterns in the witness zoo: phase order in "
